@@ -50,6 +50,9 @@ func TestC20Real(t *testing.T) {
 		{300 * time.Millisecond, 25 * time.Millisecond, 0, 0},
 		{200 * time.Millisecond, 50 * time.Millisecond, 10 * time.Millisecond, 0},
 		{100 * time.Millisecond, 0, 2 * time.Millisecond, 0},
+		// failing attempts that take longer than the wait that follows them
+		{700 * time.Millisecond, 20 * time.Millisecond, 60 * time.Millisecond, 0},
+		{900 * time.Millisecond, 30 * time.Millisecond, 90 * time.Millisecond, 6},
 		{0, 20 * time.Millisecond, 0, 1},
 		{0, 20 * time.Millisecond, 0, 0},
 	}
